@@ -82,13 +82,13 @@ type ev struct {
 
 // store is one Pieces under test plus its truth.
 type store struct {
-	ps   *piece.Pieces
-	geo  *fixture.Geo
-	hist []ev
-	hmu  sync.Mutex
-	clk  *int64
-	c    *vk.C
-	prop string
+	ps    *piece.Pieces
+	geo   *fixture.Geo
+	hist  []ev
+	hmu   sync.Mutex
+	clk   *int64
+	c     *vk.C
+	prop  string
 	kills int64 // Expire/Del calls in flight
 }
 
@@ -332,14 +332,14 @@ func (s *store) viol(prop, kind, sig, detail string, o any) {
 // ---- reflect access to the unexported store state (read at quiescent cuts) ----
 
 type snapshot struct {
-	bufBytes  int64 // sum of cap(data)
-	nonNil    int
-	count     int
-	deleted   bool
-	complete  []bool
-	busy      []bool
-	has       []bool
-	missing   string
+	bufBytes int64 // sum of cap(data)
+	nonNil   int
+	count    int
+	deleted  bool
+	complete []bool
+	busy     []bool
+	has      []bool
+	missing  string
 }
 
 func (s *store) snap() snapshot {
